@@ -12,7 +12,7 @@ import time
 
 HOME = os.environ.get("VERIF_HOME") or os.path.dirname(os.path.dirname(os.path.abspath(__file__)))
 SPECS = os.path.join(HOME, "specs")
-OUT = os.path.join(HOME, "out")
+OUT = os.environ.get("VERIF_OUT") or os.path.join(HOME, "out")    # VERIF_OUT: private scratch for parallel dev runs
 JAR = "/opt/veriftools/tla/tla2tools.jar:/opt/veriftools/tla/CommunityModules-deps.jar"
 
 
